@@ -5,7 +5,7 @@ from props.m1common import g, sp, sx, rng_for, is_err, compare_result, shrink_tr
 PID = "C19"
 RUNNER = "impl_m1.py"
 N = {"quick": 2100, "thorough": 70000}
-LEVEL_RULE = ("seven operations in equal shares on random sequences / simultaneities with 0-6 children (leaves and nested containers), "
+LEVEL_RULE = ("(12 % of the tie cases are UNRESTRICTED ties on sequences of non-empty sequences - whole containers are merged and the survivor rescaled to the run total; implementation-side oracle only, the model has the leaf-restricted form) seven operations in equal shares on random sequences / simultaneities with 0-6 children (leaves and nested containers), "
               "tags of the children drawn from {none, 1, 2, 3} with repeats and missing ones, tempi from three values: read / replace / "
               "delete by tag (query tags 1-3, about 30 % absent -> KeyError), slices i0:i1 with 0 <= i0, i1 <= len + 2 (also i0 > i1), "
               "sequence + container (equal tempo), remove_by with duration / label-class / leaf-only conditions, tie_by with key = "
@@ -80,6 +80,23 @@ def gen(seed, index):
         else:
             cond = ["leafonly"]
         return ["op", t, ["remove_by", cond]]
+    if rng.random() < 0.12:
+        # unrestricted tie on a sequence of non-empty sequences: whole containers are merged, the survivor is rescaled
+        # to the run's total (implementation-side oracle only: the model's tie_by is the leaf-restricted form)
+        G2 = g.G(rng, unit=rng.choice([2500000000, 10000000000, 3333333333, 5000000000]), zero_p=0.1, max_depth=2, allow_sim=False)
+        kids = []
+        for _ in range(rng.randint(2, 4)):
+            sub = ["S", 0, 0] + [G2.tree(depth=rng.choice([0, 0, 1])) for _ in range(rng.randint(1, 3))]
+            kids.append(sub)
+        t = ["S", 0, 0] + kids
+        if rng.random() < 0.4:
+            # one leaf object under two sub-containers of ONE child (across children the merge steps would alias)
+            from props import C02 as _c2
+            _c2.share_leaves(rng, rng.choice(kids))
+        for sub in kids:
+            if g.dur(sub) == 0:
+                sub.append(["L", G2.unit, G2.label()])      # every child of the run has a positive length
+        return ["op", t, ["tie_all", ["always"], rng.choice([0, 1])]]
     sim = rng.random() < 0.12
     t = tie_tree(rng, G, rng.choice([0, 1, 1, 2, 3]), sim)
     if not sim:
@@ -87,8 +104,45 @@ def gen(seed, index):
     return ["op", t, ["tie_by", ["samekey", rng.choice([1, 2, 2, 3])], rng.choice([0, 1])]]
 
 
+def model_case(case):
+    if case[0] == "op" and case[2][0] == "tie_all":
+        return ["dur", case[1]]      # outside the model (see LEVEL_RULE): the model only reports the duration
+    return case
+
+
 def compare(case, mo, io):
+    if case[0] == "op" and case[2][0] == "tie_all":
+        return None
     return compare_result(mo, io)
+
+
+def oracle_tie_all(case, io):
+    t = sp.norm(case[1])
+    first = case[2][2] in (1, "1", "true")      # event_to_remove=True keeps the first of the run
+    if is_err(io):
+        return f"unrestricted tie_by raised {io[1]} on a sequence of non-empty sequences"
+    r = sp.norm(io[1])
+    D = sp.dur(t)
+    kids = sp.kids(r)
+    if len(kids) != 1:
+        return f"tie_by with an always-true condition left {len(kids)} children, one run has one survivor"
+    src = sp.kids(t)[0] if first else sp.kids(t)[-1]
+    surv = kids[0]
+    if sp.shape(surv) != sp.shape(src):
+        return "the surviving child is not the first / last child of the run (structure differs)"
+    n = max(1, len(sp.flat(t)))      # every merge step rescales the current survivor and rounds each of its leaves
+    if abs(sp.dur(surv) - D) > n:
+        return f"the survivor lasts {sp.dur(surv)} ticks, the run's total is {D} (rescaling may round each leaf by half a tick)"
+    if abs(sp.dur(r) - D) > n:
+        return f"the container's duration changed from {D} to {sp.dur(r)}"
+    d0 = sp.dur(src)
+    if d0 == 0:
+        return None     # a zero-length survivor is filled evenly (the other branch of the duration setter, C16)
+    for (a, b, l, _), (a2, b2, l2, _) in zip(sp.flat(src), sp.flat(surv)):
+        want = (b - a) * D / d0
+        if l != l2 or abs((b2 - a2) - want) > n:
+            return f"leaf {l}: {b - a} ticks became {b2 - a2}, rescaling the survivor from {d0} to {D} gives {want:.1f}"
+    return None
 
 
 # ------------------------------------------------------------------------------------------------ expected values
@@ -157,6 +211,8 @@ def oracle(case, io, mo):
     t = sp.norm(case[1])
     if t[0] == "L":
         return None
+    if case[0] == "op" and case[2][0] == "tie_all":
+        return oracle_tie_all(case, io)
     if case[0] == "get_tag":
         i = first_with_tag(t, int(case[2]))
         if i is None:
@@ -246,6 +302,8 @@ def stats(results):
 
 
 def shrink(case):
+    if case[0] == "op" and case[2][0] == "tie_all":
+        return []
     if case[0] == "get_tag":
         return [["get_tag", t2, case[2]] for t2 in shrink_tree(case[1])]
     out = [["op", t2, case[2]] for t2 in shrink_tree(case[1])]
